@@ -20,6 +20,7 @@ MENU = [
     ('[!h=z]', 'h', 'z', 'implied'), ('[e={x}]', 'e', 'x', 'expr'), ('[disabled]', 'disabled', None, 'listed'),
     ('[class=k]', 'class', 'k', None), ('[id=j]', 'id', 'j', None), ('[for=f]', 'for', 'f', None),
     ('[!k.]', 'k', None, 'implied'), ('[a=""]', 'a', '', None),
+    ('[class=""]', 'class', '', None),         # an empty class mention: whether it contributes a space of its own is left open
     ('[class]', 'class', None, None),          # value-less first mention of a class: later mentions still merge into it
     ('[Checked]', 'Checked', None, 'listed'),      # HTML attribute names are case-insensitive: still the listed boolean attribute
     ('..c3', 'class', 'c3', None),        # doubled shorthand: still a class attribute (html / xml syntaxes only, see run_shard)
@@ -105,7 +106,10 @@ def reference(ms, opts, syntax, explicit_list):
             d[name] = [val, flag]
         elif name == 'class':
             pv = d[name][0]
-            d[name][0] = (pv + ' ' + val) if (pv is not None and val is not None) else (pv if pv is not None else val)
+            if pv and val:
+                d[name][0] = pv + ' ' + val
+            elif not pv:
+                d[name][0] = val if (val is not None or pv is None) else pv
         elif not rev:
             d[name][0] = val
     q = "'" if opts.get('output.attributeQuotes') == 'single' else '"'
@@ -170,9 +174,18 @@ def check_merge(ms, share, opts, syntax, explicit_list, host=None):
             copies = [ev[0][2] if ev and ev[0][0] == 'o' else ('NO-TAG', out)]
     except Exception as e:
         return s, ('exception:%s' % type(e).__name__, str(e)[:200])
+    # "joined by single spaces": whether an *empty* class mention contributes a space of its own is left open (the class
+    # tokens and their order are still compared)
+    empty_class = any(m[1] == 'class' and m[2] == '' for m in ms)
+    cname = next((e[0] for e in exp if e[0].lower() in ('class', 'classname', 'cls')), None)
+
+    def same(g, e):
+        if g == e or (e[1] == 'XMLBOOL' and g[0] == e[0] and g[1] is not None and g[2] in ('', g[0])):
+            return True
+        return bool(empty_class and e[0] == cname and g[:2] == e[:2] and isinstance(g[2], str) and isinstance(e[2], str)
+                    and g[2].split(' ') != [] and [t for t in g[2].split(' ') if t] == [t for t in e[2].split(' ') if t])
     for ci, got in enumerate(copies):
-        if not (len(got) == len(exp) and all(g == e or (e[1] == 'XMLBOOL' and g[0] == e[0] and g[1] is not None and g[2] in ('', g[0]))
-                                             for g, e in zip(got, exp))):
+        if not (len(got) == len(exp) and all(same(g, e) for g, e in zip(got, exp))):
             return s, (classify(exp, got) + ((':element-%d-of-alias' if host == HOST_ALIAS else ':copy-%d-of-repeated-element') % (ci + 1) if host else ''),
                        dict(abbr=s, expected=exp, actual=got, output=out[:200]))
     return s, None
